@@ -3,6 +3,12 @@
 A *shape* is a JSON-able dict; `make_class(shape)` builds the classes with type() (through the real
 HasAccessibles.__init_subclass__ machinery), so that a violation case can carry the shape and replay() can rebuild it.
 
+    shape['nopoll'] = True: the class sets enablePoll = False (a node of such modules can be started through the real start
+                      path without any poll thread)
+    shape['deferred'] = {'start': changes, 'runtime': changes}: the class finalises datatypes late, as drivers do that
+                      learn limits / units from the hardware: `changes` are applied in startModule (after super) resp. by
+                      the method vf_runtime_change() the harness calls;  changes = {attr: {'props': {min|max|unit|maxchars|
+                      ...: value}} | {'replace': <type spec>}}
     shape = {'name': 'GA', 'base': 'Module'|'Readable'|'Writable'|'Drivable'|'Communicator',
              'features': ['HasGenA', ...],         # Feature mixins (direct subclasses of frappy.modulebase.Feature)
              'levels': [level, ...]}               # classes along the MRO, base-most first; the last one is instantiated
@@ -256,6 +262,19 @@ def _mk_command(cmd):
     return func
 
 
+def apply_deferred(mod, changes):
+    """what a driver does when it learns the real limits / unit / members from its hardware"""
+    for attr, ch in changes.items():
+        pobj = mod.parameters[attr]
+        if 'replace' in ch:
+            dt = T.build(T.fromjson(ch['replace']))
+            if hasattr(dt, 'set_name'):
+                dt.set_name(attr)
+            pobj.datatype = dt
+        if 'props' in ch:
+            pobj.datatype.set_properties(**ch['props'])
+
+
 def make_class(shape):
     key = json.dumps(shape, sort_keys=True)
     if key in _cache:
@@ -338,7 +357,27 @@ def make_class(shape):
             mixin = type(f"{shape['name']}Mixin{i}", (), {'__module__': 'vf.genmods_node',
                                                           **{ln: Limit() for ln in level['mixin_limits']}})
             bases = (mixin,) + bases
+        if i == nlev - 1:
+            if shape.get('nopoll'):
+                ns['enablePoll'] = False
+            if shape.get('deferred'):
+                holder = {}
+                deferred = shape['deferred']
+
+                def startModule(self, start_events, holder=holder, deferred=deferred):
+                    super(holder['cls'], self).startModule(start_events)
+                    apply_deferred(self, deferred.get('start', {}))
+
+                def vf_runtime_change(self, deferred=deferred):
+                    apply_deferred(self, deferred.get('runtime', {}))
+                    # like a driver that re-reads its hardware after the change: the cache holds values of the new types
+                    for attr in deferred.get('runtime', {}):
+                        setattr(self, attr, self.parameters[attr].default)
+                ns['startModule'] = startModule
+                ns['vf_runtime_change'] = vf_runtime_change
         cls = type(cname, bases, ns)
+        if i == nlev - 1 and shape.get('deferred'):
+            holder['cls'] = cls
         bases = (cls,)
     _cache[key] = cls
     return cls
@@ -565,4 +604,23 @@ def shapes_c06(tier):
                         P('ah', ('array', h, 1, 2), 'rw_write'), P('sq', ('struct', (('a', q), ('b', o)), ('b',)), 'rw_write')],
              'commands': []},
         ]}
-    return [gk, gx_shape(True)]
+    gs = {   # datatypes finalised in startModule and changed again at run time (limits, unit, lengths, enum members)
+        'name': 'GS', 'base': 'Drivable', 'features': [], 'nopoll': True,
+        'levels': [
+            {'params': [P('value', DOUBLE, 'ro', inherit=True, unit='A', dflt=2),
+                        P('target', DOUBLE, 'rw_write', inherit=True, unit='$', dflt=2),
+                        P('n', ('int', None, None), 'rw_write', dflt=3),
+                        P('sc', ('scaled', 0.5, -10.0, 10.0), 'rw_write', dflt=3),
+                        P('s', ('string', 0, None, False), 'rw_nowrite'),
+                        P('e', EN, 'rw_write', wret='same'),
+                        P('arr', ('array', I09, 0, 3), 'rw_write', rfunc=True)],
+             'commands': [C('cmd0'), C('cmdleaf', I09, result=I09)]},
+        ],
+        'deferred': {
+            'start': {'target': {'props': {'min': -10.0, 'max': 10.0, 'unit': 'mV'}}, 'n': {'props': {'min': 0, 'max': 5}},
+                      's': {'props': {'maxchars': 3}}, 'sc': {'props': {'max': 5.0}}},
+            'runtime': {'target': {'props': {'min': -2.0, 'max': 2.0, 'unit': 'kV'}}, 'n': {'props': {'max': 3}},
+                        's': {'props': {'maxchars': 2}}, 'e': {'replace': T.tojson(('enum', (('a', 1), ('b', 2), ('c', 3))))},
+                        'arr': {'props': {'maxlen': 2}}},
+        }}
+    return [gk, gx_shape(True), gs]
